@@ -1,4 +1,5 @@
 import Svgbob.Model.Front
+import Svgbob.Model.Doc
 /-!
 Line-protocol driver for the executable model. `svgbob_model <mode>` reads one case per line
 on stdin and answers one line per case in the same canonical format as the Rust harness.
@@ -56,6 +57,112 @@ def showFront (o : FrontOut) : String :=
   " esc=" ++ joinWith ";" (o.escaped.map fun (c, s) => s!"{c.x},{c.y},{hexOfChars s}") ++
   " css=" ++ joinWith ";" (o.css.map fun (k, v) => s!"{hexOfChars k}:{hexOfChars v}")
 
+/-! fragment dump parsing (same tokens as the harness's `dump_fragment`) -/
+
+def pInt (s : String) : Int := s.toInt!
+def pBool (s : String) : Bool := s == "1"
+
+def pMarker (s : String) : Option Marker :=
+  match s with
+  | "arrow" => some .arrow | "clear_arrow" => some .clearArrow | "circle" => some .circle
+  | "square" => some .square | "diamond" => some .diamond | "open_circle" => some .openCircle
+  | "big_open_circle" => some .bigOpenCircle | _ => none
+
+def pTag (s : String) : Option PolygonTag :=
+  match s with
+  | "ArrowTopLeft" => some .arrowTopLeft | "ArrowTop" => some .arrowTop
+  | "ArrowTopRight" => some .arrowTopRight | "ArrowLeft" => some .arrowLeft
+  | "ArrowRight" => some .arrowRight | "ArrowBottomLeft" => some .arrowBottomLeft
+  | "ArrowBottom" => some .arrowBottom | "ArrowBottomRight" => some .arrowBottomRight
+  | "DiamondBullet" => some .diamondBullet | _ => none
+
+def pFrag (tok : String) : Option Frag :=
+  match tok.splitOn ":" with
+  | ["L", body] =>
+    match body.splitOn "," with
+    | [a, b, c, d, e] => some (.line ⟨pInt a, pInt b⟩ ⟨pInt c, pInt d⟩ (pBool e))
+    | _ => none
+  | ["M", body] =>
+    match body.splitOn "," with
+    | [a, b, c, d, e, sm, em] =>
+      some (.markerLine ⟨pInt a, pInt b⟩ ⟨pInt c, pInt d⟩ (pBool e) (pMarker sm) (pMarker em))
+    | _ => none
+  | ["C", body] =>
+    match body.splitOn "," with
+    | [a, b, r, f] => some (.circle ⟨pInt a, pInt b⟩ (pInt r) (pBool f))
+    | _ => none
+  | ["A", body] =>
+    match body.splitOn "," with
+    | [a, b, c, d, r, m, sw] => some (.arc ⟨pInt a, pInt b⟩ ⟨pInt c, pInt d⟩ (pInt r) (pBool m) (pBool sw))
+    | _ => none
+  | ["P", f, tags, pts] =>
+    let ps := (pts.splitOn "/").filterMap fun p =>
+      match p.splitOn "," with
+      | [x, y] => some (Pt.mk (pInt x) (pInt y))
+      | _ => none
+    let ts := if tags == "-" then [] else (tags.splitOn "+").filterMap pTag
+    some (.polygon ps (pBool f) ts)
+  | ["R", body] =>
+    match body.splitOn "," with
+    | [a, b, c, d, f, r, br] =>
+      some (.rect ⟨pInt a, pInt b⟩ ⟨pInt c, pInt d⟩ (pBool f) (if r == "-" then none else some (pInt r)) (pBool br))
+    | _ => none
+  | ["T", body] =>
+    match body.splitOn "," with
+    | [x, y, h] => some (.cellText ⟨pInt x, pInt y⟩ (unhex h))
+    | _ => none
+  | ["X", body] =>
+    match body.splitOn "," with
+    | [x, y, h] => some (.text ⟨pInt x, pInt y⟩ (unhex h))
+    | _ => none
+  | _ => none
+
+def pFrags (s : String) : List Frag :=
+  if s == "-" then [] else (s.splitOn ";").filterMap pFrag
+
+def pGroups (s : String) : List (List Frag) :=
+  if s == "-" then [] else (s.splitOn "#").map pFrags
+
+/-- `key=value` lookup in a comma separated token -/
+def kv (tok key : String) : Option String :=
+  (tok.splitOn ",").findSome? fun e =>
+    match e.splitOn "=" with
+    | [k, v] => if k == key then some v else none
+    | _ => none
+
+/-- `scale=N/D,b=0|1,s=0|1,d=0|1,ow=W,oh=H` (override numerators over 1000*D, optional) -/
+def pCfg (tok : String) (css0 : List Char) : Cfg :=
+  let sc := (kv tok "scale").getD "8/1"
+  let (n, d) := match sc.splitOn "/" with
+    | [a, b] => (a.toNat!, b.toNat!)
+    | [a] => (a.toNat!, 1)
+    | _ => (8, 1)
+  { scaleN := n, scaleD := d,
+    includeBackdrop := (kv tok "b").getD "1" == "1",
+    includeStyles := (kv tok "s").getD "1" == "1",
+    includeDefs := (kv tok "d").getD "1" == "1",
+    css0 := css0,
+    overrideSize := match kv tok "ow", kv tok "oh" with
+      | some w, some h => some (pInt w, pInt h)
+      | _, _ => none }
+
+def pCss (s : String) : List (List Char × List Char) :=
+  if s == "" then [] else (s.splitOn ";").filterMap fun e =>
+    match e.splitOn ":" with
+    | [k, v] => some (unhex k, unhex v)
+    | _ => none
+
+def pCells (s : String) : List (Cell × Char) :=
+  if s == "" then [] else (s.splitOn ";").filterMap fun e =>
+    match e.splitOn "," with
+    | [x, y, c] => some (⟨pInt x, pInt y⟩, Char.ofNat c.toNat!)
+    | _ => none
+
+/-- UTF-8 byte length, the `String::len` of the code -/
+def byteLen (cs : List Char) : Nat := (String.ofList cs).utf8ByteSize
+
+def stripPrefix (p s : String) : String := (s.drop p.length).toString
+
 def handle (mode : String) (fields : List String) : String :=
   match mode, fields with
   | "front", [inp, env] => showFront (front (parseEnv env) (unhex inp))
@@ -71,6 +178,12 @@ def handle (mode : String) (fields : List String) : String :=
     match parseCssTag (unhex inp) with
     | none => "err"
     | some ts => "tags=" ++ joinWith ";" (ts.map hexOfChars)
+  | "back", [pretty, cfgTok, css0, cells, css, frags, groups] =>
+    -- pretty|compressed cfg css0hex cells=.. css=.. frags=.. groups=..
+    let cfg := pCfg cfgTok (unhex css0)
+    let root := svgRoot byteLen cfg (pCells (stripPrefix "cells=" cells)) (pCss (stripPrefix "css=" css))
+      (pFrags (stripPrefix "frags=" frags)) (pGroups (stripPrefix "groups=" groups))
+    "ok " ++ hexOfChars (Node.render cfg.den (pretty == "pretty") 0 root)
   | _, _ => "bad-request"
 
 partial def loop (h : IO.FS.Stream) (out : IO.FS.Stream) (mode : String) : IO Unit := do
